@@ -148,7 +148,16 @@ func main() {
 		sort.Strings(names)
 		for _, n := range names {
 			f := newFnEnc(eng, eng.funcs[n], r.cs.ByName[n], want)
-			f.encode()
+			func() {
+				// code outside the modelled subset must end as UNDECIDED for this function,
+				// not take the whole run down
+				defer func() {
+					if rec := recover(); rec != nil {
+						f.failed = fmt.Errorf("%s: outside the modelled subset (%v)", n, rec)
+					}
+				}()
+				f.encode()
+			}()
 			if f.failed != nil {
 				undecided = append(undecided, f.failed.Error())
 				continue
@@ -181,11 +190,10 @@ func main() {
 			allObls = append(allObls, f.obls...)
 		}
 	}
-	if len(undecided) > 0 {
-		for _, u := range undecided {
-			fmt.Printf("UNDECIDED %s\n", u)
-		}
-		os.Exit(2)
+	// a function whose (changed) body is outside the modelled subset is undecided; everything else
+	// is still checked, and the run ends with exit 2 unless a violation is found elsewhere
+	for _, u := range undecided {
+		fmt.Printf("UNDECIDED %s\n", u)
 	}
 	if *listOnly {
 		for _, ob := range allObls {
@@ -390,6 +398,7 @@ func main() {
 			"known_findings_hit":       knownHit,
 			"integer_model":            "mathematical integers with exact wrap-around for 8/16/32-bit types and unsigned subtraction; 64-bit + and * treated as mathematical",
 		}
+		cov["undecided_functions"] = undecided
 		cov["solver_queries_fresh"] = int(atomic.LoadInt32(&nFresh))
 		cov["verdicts_reused"] = int(atomic.LoadInt32(&nReused))
 		cov["verdict_store"] = "unsat answers are stored under the SHA-256 of the complete query text and reused when the regenerated query is byte-identical (the quick tier consults the store first; the thorough tier asks the solvers first and falls back to the store only on a timeout)"
@@ -420,6 +429,9 @@ func main() {
 	}
 	if len(violations) > 0 {
 		os.Exit(1)
+	}
+	if len(undecided) > 0 {
+		os.Exit(2)
 	}
 }
 
